@@ -156,7 +156,11 @@ def noise(rng, maxlen):
 # the predicates takes strangers, bridges, both services and Resets into account).
 # ---------------------------------------------------------------------------------------------------------------
 IFMACS = [OWN, OWN2, '00005e000001']
-BLOBS = ['none', '-', '-', 'gen:5:7', 'gen:300:1', 'gen:542:2', 'gen:543:3', 'gen:3000:4']
+BLOBS = ['none', '-', '-', 'gen:5:7', 'gen:300:1', 'gen:542:2', 'gen:543:3', 'gen:3000:4', 'gen:65535:5', 'gen:65536:6', 'gen:70000:7']     # also beyond what a 16-bit length holds
+SSIDS = ['linksys', 'default', 'NETGEAR', 'dlink', 'eduroam', 'FRITZ!Box 7590', 'AndroidAP', 'iPhone', 'xfinitywifi', 'DIRECT-roku-123', 'guest', 'home', ' ', 'hidden']
+# host names a real network produces (defaults of unconfigured systems, vendor defaults, FQDNs, non-ASCII)
+HOSTNAMES = ['localhost', 'localhost.localdomain', '(none)', 'raspberrypi', 'DESKTOP-0A1B2C3', 'WIN-9QK2J3', 'android-1f2e3d4c5b6a', 'ubuntu', 'debian', 'openwrt', 'OpenWrt', 'esp32',
+             'MacBook-Pro.local', 'unknown', 'host', 'a', 'nas.example.org', 'b\u00fcro-pc', 'new-host-2', 'linux', 'buildroot', 'archlinux', 'fedora', 'none', 'null', 'NULL', 'default', 'router']
 # hardware identifiers (UCS-2LE): ASCII, characters whose LOW byte is zero (U+4E00, U+0100, U+3000), full 64 bytes, an embedded NUL character
 HWIDS = ['-', '4100', '41004200430044004500', 'ab' * 64, '4100004e4200', '00014100', '4d006f00640065006c002d004100004e2d003700',
          '4100' * 10 + '0001' + '4200' * 21, '41004200000043004400', '0030']
@@ -167,10 +171,10 @@ CLOCK_STEPS = [1, 3, 10, 20, 50, 99, 100, 101, 250, 999, 1000, 1001, 5000, 30000
 
 def universal(rng, nif=None, length=None, with_glob_changes=True):
     """ops for 1..3 interfaces of one responder"""
-    nif = nif or rng.choice([1, 1, 2, 3])
+    nif = nif or rng.choice([1, 1, 1, 2, 2, 3, 3, 9, 17, 24][:rng.choice([7, 7, 7, 10])])      # now and then a host with many interfaces (VLANs, containers)
     clocked = rng.random() < 0.5
     mtus = [rng.choice([576, 576, 1500, 1492, 577 + rng.randrange(40), 9216]) for _ in range(nif)]
-    macs = IFMACS[:nif]
+    macs = (IFMACS + ['02aabbcc%02x%02x' % (0xe0 + k // 8, k) for k in range(3, 32)])[:nif]
     if nif >= 2 and rng.random() < 0.15:
         macs = [macs[0]] * nif           # a bridge and its port, bond slaves, a VLAN sub-interface: distinct contexts, one hardware address
     ops = []
@@ -178,19 +182,28 @@ def universal(rng, nif=None, length=None, with_glob_changes=True):
         kw = {}
         if rng.random() < 0.4:
             kw.update(wifi=1, mode=rng.choice([0, 1, 2, 255]), bssid=rand_mac(rng),
-                      ssid=(''.join('%02x' % rng.choice([0, 0x41, 0x61, rng.randrange(256)]) for _ in range(rng.choice([0, 1, 4, 6, 31, 32, 33, 40]))) or '-'),
+                      ssid=(rng.choice(SSIDS).encode().hex() if rng.random() < 0.25 else ''.join('%02x' % rng.choice([0, 0x41, 0x61, rng.randrange(256)]) for _ in range(rng.choice([0, 1, 4, 6, 31, 32, 33, 40]))) or '-'),
                       ssidrep=rng.choice(['copied', 'full']), rate=rand_u16(rng), rssi=rng.choice([-128, -1, 0, 1, 127, -60]))
         kw['flags'] = rng.choice([0, 0x2000, 0x800, 0x2800, 0x8000, 0xa000, 0xffff, 0x12345678, 0xffffffff])
         kw['iftype'] = rng.choice([6, 71, 0, 0xffffffff])
         kw['speed'] = rng.choice([0, 1, 1000000, 0x7fffffff, 0x80000000, 0xffffffff])
         kw['ipv4'] = '%08x' % rng.choice([0, 0xc0a80105, 0xffffffff, rng.randrange(2**32)])
         kw['buf0'] = rng.choice([0, 0xff, 0x5a])
+        if rng.random() < 0.3:
+            kw['align'] = 2            # the receive buffer starts 2 bytes past a word boundary
         ops.append(iface_line(i, mac=macs[i], mtu=mtus[i], **kw))
     hostlen = rng.choice([0, 1, 6, 6, 31, 32, 33, 40])
-    ops.append(glob_line(host=(''.join('%02x' % rng.randrange(1, 256) for _ in range(hostlen)) or '-'), hostrep=rng.choice(['copied', 'copied', 'full']),
+    host = ''.join('%02x' % rng.randrange(1, 256) for _ in range(hostlen)) or '-'
+    if rng.random() < 0.3:
+        host = rng.choice(HOSTNAMES).encode().hex()     # names a real network produces
+    ops.append(glob_line(host=host, hostrep=rng.choice(['copied', 'copied', 'full']),
                          icon=rng.choice(BLOBS), fname=rng.choice(BLOBS[:5] + ['4c004c00']), hwid=rng.choice(HWIDS)))
     if rng.random() < 0.3:
         ops.append('glob failrc=%d' % rng.choice([1, 22, -22, 1000]))      # a failing getter returns some other non-zero code than -1
+    if rng.random() < 0.3:
+        ops.append('glob failsize=%d' % rng.choice([1, 40, 3000, 70000]))      # a failing icon / name query has already stored the size
+    if rng.random() < 0.3:
+        ops.append('glob memcmprep=wide')        # lltd_port_memcmp answers with a large magnitude (only the sign is specified)
     if rng.random() < 0.3:
         ops.append('glob sendok=len')           # a successful transmit answers with the byte count (the contract: negative = refused)
     if rng.random() < 0.4:
@@ -199,7 +212,7 @@ def universal(rng, nif=None, length=None, with_glob_changes=True):
     alloc = list(mtus)             # the receive buffers keep the size of the MTU at creation; `mtus` is the current MTU
     mapper = [None] * nif          # who the generator believes is active (only a bias for choosing senders)
     seen_src = [[] for _ in range(nif)]
-    for _ in range(length or rng.randint(8, 70)):
+    for _ in range(length or (rng.randint(8, 70) if nif <= 3 else rng.randint(3 * nif, 6 * nif))):
         i = rng.randrange(nif)
         own, mtu = macs[i], mtus[i]
         who = mapper[i] if (mapper[i] and rng.random() < 0.75) else rng.choice(pool)
@@ -366,6 +379,70 @@ def with_faults(rng, ops, malloc=True, send=True, getters=True, rate=0.12, gette
         if o.startswith('rx ') and not mactive:
             seen.add(o.split()[1])
         out.append(o)
+    return out
+
+
+SOAK_KINDS = ['emit', 'stranger', 'mapper_discover', 'probe_distinct', 'probe_same', 'query', 'qltlv', 'hello', 'emit_sendfail', 'reset_discover', 'probe_query',
+              'quick_discover', 'charge_like']
+
+
+def soak(rng, kind=None, n=None):
+    """ONE kind of event repeated hundreds (or thousands) of times — what wraps an 8-bit counter, trips a threshold, exhausts a budget —
+    followed by ordinary traffic that shows the consequences.  Everything a responder does on the n-th repetition must be what
+    it does on the first."""
+    kind = kind or rng.choice(SOAK_KINDS)
+    n = n or rng.choice([300, 300, 520, 700])
+    own, (A, B, C) = OWN, STATIONS[:3]
+    mtu = rng.choice([576, 1500])
+    ops = [iface_line(0, mac=own, mtu=mtu), iface_line(1, mac=OWN2, mtu=mtu), glob_line(icon='gen:900:1', fname='4c004c00', hwid='41004200'),
+           'rx 0 %s zero' % discover(A, 1, 1)]
+    if kind == 'emit_sendfail':
+        ops.append('fault sendall')
+    for k in range(n):
+        s = (k % 65535) + 1
+        if kind in ('emit', 'emit_sendfail'):
+            f = emit(A, own, s, [(k & 1, 0, '0c00000000%02x' % (k & 255), B), (1, 0, own, C)][:1 + (k % 2)])
+        elif kind == 'stranger':
+            f = discover([B, C][k & 1], 1 + (k & 1), s, tos=k % 3 == 0)
+        elif kind == 'mapper_discover':
+            f = discover(A, 1, s, stations=[own] if k & 1 else [])
+        elif kind == 'quick_discover':
+            f = discover(A, 2, s, tos=1)
+        elif kind == 'probe_distinct':
+            f = probe('0e00%04x%04x' % (k >> 16, k & 0xffff), own, B, own, train=bool(k & 1))
+        elif kind == 'probe_same':
+            f = probe(B, own, B, own, train=bool(k & 1))
+        elif kind == 'probe_query':
+            f = probe('0e01%04x%04x' % (k >> 16, k & 0xffff), own, A, own) if k % 20 else query(A, own, s)
+        elif kind == 'query':
+            f = query(A, own, s)
+        elif kind == 'qltlv':
+            f = qltlv(A, own, s, [0x0e, 0x11, 0x13][k % 3], (k * 37) % 1000)
+        elif kind == 'hello':
+            f = hello(B, k & 0xffff, A, A)
+        elif kind == 'charge_like':
+            f = raw(0, 9, own, A, own, A, s, '')
+        else:  # reset_discover
+            f = reset(A) if k & 1 else discover(A, 1, s)
+        ops.append('rx 0 %s zero' % f)
+    if kind == 'emit_sendfail':
+        ops.append('fault clear')
+    # the consequences: arbitration, Emit, observation and retrieval must work as on a fresh session; then the same after a Reset
+    tail = [discover(A, 1, 7), discover(B, 1, 8), emit(A, own, 9, [(1, 0, C, B), (0, 0, C, own)]), probe(C, own, C, own), probe('0e02aabbcc01', own, B, own),
+            query(A, own, 10), query(A, own, 11), qltlv(A, own, 12, 0x0e, 0), reset(A), discover(B, 3, 13), emit(B, own, 14, [(1, 0, C, A)]),
+            probe(C, own, C, own), query(B, own, 15), reset(B)]
+    ops += ['rx 0 %s zero' % f for f in tail]
+    ops += ['rx 1 %s zero' % discover(A, 1, 1), 'dump 0', 'dump 1']
+    return ops
+
+
+def soak_cases(rng, tier, faults=True):
+    """one soak per kind (quick: 130..520 repetitions; thorough: also 70 000), plus one long run past 2^13 observations"""
+    out = [('soak_%s' % kd, soak(rng, kd)) for kd in SOAK_KINDS if faults or kd != 'emit_sendfail']
+    out.append(('soak_long', soak(rng, rng.choice(['probe_query', 'probe_same']), 8300)))
+    out.append(('soak_cap', soak(rng, 'probe_distinct', 1100)))          # past the cap of the observation list
+    if tier == 'thorough':
+        out += [('soak70k_%s' % kd, soak(rng, kd, 70000)) for kd in ('emit', 'probe_same', 'mapper_discover', 'query')]
     return out
 
 def alphabet(own=OWN):
